@@ -33,10 +33,14 @@ func init() {
 		Doc: "the stores that mark a node as persisted (dirty=false, source=&name, shared=true, child pointer → name) must execute only after Persist.Store of that node returned nil " +
 			"(control-dependent on its nil result, or after the barrier on the success edge).",
 		Run: runCLEANMARK})
-	Register(&Rule{ID: "PUB", Props: []string{"C11"}, Min: 1,
+	Register(&Rule{ID: "PUB", Props: []string{"C11"}, Min: 0,
 		Doc: "after a node pointer has been captured by a closure that is sent on a channel or started with go, the sender performs no further store to that node " +
 			"(a happens-before edge exists only for writes that precede the hand-off).",
 		Run: runPUB})
+	Register(&Rule{ID: "CACHEAFTER", Props: []string{"C03", "C13"}, Min: 2,
+		Doc: "a node enters the NodeCache only after the store is known to hold it: every NodeCache.Add is dominated by the nil-error edge of a Persist.Store or Persist.Load call of the same function " +
+			"(the cache doubles as the 'already persisted' oracle that lets a later flush skip the write).",
+		Run: runCACHEAFTER})
 	Register(&Rule{ID: "CACHEKEY", Props: []string{"C03", "C02"}, Min: 4,
 		Doc: "every NodeCache call builds its key as Sprintf(\"%s/%s\", P.NodeURLPrefix(), name) from the same Persist value P that the function uses for Load/Store and the same name it loads/stores, " +
 			"so a cache shared between stores with different prefixes never short-circuits a write or serves a foreign node.",
@@ -121,7 +125,7 @@ func findFlush(c *Ctx) *flushShape {
 			for _, ins := range b.Instrs {
 				if g, ok := ins.(*ssa.Go); ok {
 					sh.gos = append(sh.gos, g)
-					if body := g.Call.StaticCallee(); body != nil && body.Blocks != nil {
+					if body := goBody(g); body != nil && body.Blocks != nil {
 						if _, seen := sh.spawner[body]; !seen {
 							sh.bodies[g] = body
 							sh.spawner[body] = g
@@ -517,62 +521,129 @@ func runBARRIER(c *Ctx) {
 
 // ---- ERRPROP (flush part) -------------------------------------------------------
 
-// errorPropagated checks that no nil-error return of fn is reachable on the
-// non-nil edge of call result r (error value).
+// errorPropagated checks that no nil-error return of fn is reachable from the
+// call `after` without taking the nil edge of a test of its error result r:
+// a search from the call that does not cross `r == nil` edges (those paths
+// are the success continuation) must reach only returns that carry r or a
+// non-nil error.
 func errorPropagated(fn *ssa.Function, after ssa.Instruction, r ssa.Value) (bool, *ssa.Return) {
 	ei := ir.ErrorResultIndex(fn.Signature)
 	if ei < 0 {
 		return false, nil
 	}
-	for _, ret := range ir.Returns(fn) {
-		if !ir.InstrReaches(after, ret) {
-			continue
-		}
-		op := ret.Results[ei]
-		if okOperand(op, ret.Block(), r, 0) {
-			continue
-		}
-		return false, ret
-	}
-	return true, nil
-}
-
-// okOperand: returning op in block b is fine w.r.t. error r: either r is known
-// nil here, or op is r itself, or op is certainly non-nil.
-func okOperand(op ssa.Value, b *ssa.BasicBlock, r ssa.Value, d int) bool {
-	if nilFactOn(b, r, true) {
-		return true
-	}
-	if sameValue(op, r) || ir.Origin(op) == ir.Origin(r) {
-		return true
-	}
-	switch x := op.(type) {
-	case *ssa.Call:
-		return true // fmt.Errorf(...), errors.New(...): non-nil
-	case *ssa.MakeInterface:
-		return true
-	case *ssa.Phi:
-		if d > 4 {
-			return false
-		}
-		for i, e := range x.Edges {
-			if !okOperand(e, x.Block().Preds[i], r, d+1) {
-				// edge-specific facts
-				ok := false
-				for _, f := range ir.EdgeFacts(x.Block().Preds[i], x.Block()) {
-					tv, tnn, isNil := ir.NilTest(f.Cond)
-					if isNil && sameValue(tv, r) && f.Truth != tnn {
-						ok = true
+	// values that are r or a phi merging r
+	carries := map[ssa.Value]bool{r: true}
+	for changed := true; changed; {
+		changed = false
+		for _, b := range fn.Blocks {
+			for _, ins := range b.Instrs {
+				if phi, ok := ins.(*ssa.Phi); ok && !carries[phi] {
+					for _, e := range phi.Edges {
+						if carries[e] {
+							carries[phi] = true
+							changed = true
+						}
 					}
-				}
-				if !ok {
-					return false
 				}
 			}
 		}
-		return true
 	}
-	return false
+	isR := func(v ssa.Value) bool {
+		if carries[v] {
+			return true
+		}
+		for c := range carries {
+			if sameValue(v, c) {
+				return true
+			}
+		}
+		return false
+	}
+	start := after.Block()
+	seen := map[*ssa.BasicBlock]bool{}
+	var bad *ssa.Return
+	var visit func(b *ssa.BasicBlock, from int)
+	visit = func(b *ssa.BasicBlock, from int) {
+		if bad != nil {
+			return
+		}
+		if from == 0 {
+			if seen[b] {
+				return
+			}
+			seen[b] = true
+		}
+		for i := from; i < len(b.Instrs); i++ {
+			switch x := b.Instrs[i].(type) {
+			case *ssa.Return:
+				op := x.Results[ei]
+				if isR(op) || ir.Origin(op) == ir.Origin(r) {
+					return
+				}
+				switch op.(type) {
+				case *ssa.Call, *ssa.MakeInterface:
+					return // constructed (non-nil) error
+				}
+				if isSentinel(op) {
+					return // a package-level error value
+				}
+				if ir.IsNilConst(op) {
+					bad = x
+					return
+				}
+				// another error value (a different call's result, a loaded cell): it is
+				// returned on its own non-nil edge; not a dropped r unless it may be nil here
+				if nilFactOn(b, op, false) {
+					return
+				}
+				bad = x
+				return
+			case *ssa.If:
+				// comparison with a sentinel (ErrIterDone, ErrNoMoreDiffs): the equal
+				// edge is the documented stop protocol, not a dropped error
+				if bin, isBin := x.Cond.(*ssa.BinOp); isBin && (bin.Op == token.EQL || bin.Op == token.NEQ) {
+					var other ssa.Value
+					if isR(bin.X) {
+						other = bin.Y
+					} else if isR(bin.Y) {
+						other = bin.X
+					}
+					if other != nil && isSentinel(other) {
+						if bin.Op == token.EQL {
+							visit(b.Succs[1], 0)
+						} else {
+							visit(b.Succs[0], 0)
+						}
+						return
+					}
+				}
+				if call, isCall := x.Cond.(*ssa.Call); isCall {
+					if sc := call.Call.StaticCallee(); sc != nil && sc.String() == "errors.Is" && len(call.Call.Args) == 2 &&
+						isR(ir.Strip(call.Call.Args[0])) && isSentinel(ir.Strip(call.Call.Args[1])) {
+						visit(b.Succs[1], 0) // not the sentinel: keep looking; the sentinel edge is the stop protocol
+						return
+					}
+				}
+				tv, tnn, ok := ir.NilTest(x.Cond)
+				if ok && isR(tv) {
+					// follow only the non-nil edge
+					if tnn {
+						visit(b.Succs[0], 0)
+					} else {
+						visit(b.Succs[1], 0)
+					}
+					return
+				}
+			case *ssa.Panic:
+				return
+			}
+		}
+		for _, s := range b.Succs {
+			visit(s, 0)
+		}
+	}
+	visit(start, ir.InstrIndex(after)+1)
+	return bad == nil, bad
 }
 
 func storeSites(c *Ctx) []ssa.CallInstruction {
@@ -908,9 +979,8 @@ func runCACHEKEY(c *Ctx) {
 			}
 			pos := P.InstrPos(ci)
 			what := ext + " in " + ir.FuncName(fn)
-			key := ir.Origin(ci.Common().Args[0])
-			sp, ok := key.(*ssa.Call)
-			if !ok || sp.Call.StaticCallee() == nil || sp.Call.StaticCallee().String() != "fmt.Sprintf" {
+			sp, env := sprintfThroughHelpers(ir.Origin(ci.Common().Args[0]), 0)
+			if sp == nil {
 				c.Violation(fn, pos, ext+" key not built by Sprintf(prefix, name)", "the cache key is not the store prefix joined with the node name: a cache shared between stores can short-circuit a write or serve a node of another store")
 				continue
 			}
@@ -919,6 +989,17 @@ func runCACHEKEY(c *Ctx) {
 			if format == nil || len(parts) != 2 {
 				c.Violation(fn, pos, ext+" key format", "cache key format is not a constant two-part format")
 				continue
+			}
+			// map values of a key-building helper back to the arguments it was called with
+			back := func(v ssa.Value) ssa.Value {
+				for i := 0; i < 4; i++ {
+					p, isP := ir.Strip(ir.ResolveCell(v)).(*ssa.Parameter)
+					if !isP || env[p] == nil {
+						break
+					}
+					v = env[p]
+				}
+				return v
 			}
 			fs := strings.Trim(format.Value.ExactString(), "\"")
 			if strings.Count(fs, "%") != 2 || !strings.HasPrefix(fs, "%") {
@@ -940,8 +1021,8 @@ func runCACHEKEY(c *Ctx) {
 					if e != "Persist.Load" && e != "Persist.Store" {
 						continue
 					}
-					samePersist := ir.SameOrigin(cj.Common().Value, pfx.Call.Value)
-					sameName := ir.SameOrigin(cj.Common().Args[1], parts[1])
+					samePersist := ir.SameOrigin(cj.Common().Value, back(pfx.Call.Value))
+					sameName := ir.SameOrigin(cj.Common().Args[1], back(parts[1]))
 					if samePersist && sameName {
 						matched = true
 					} else if !samePersist {
@@ -997,4 +1078,117 @@ func varargValues(v ssa.Value) []ssa.Value {
 		out = append(out, vals[i])
 	}
 	return out
+}
+
+// isSentinel: v is the value of a package-level error variable.
+func isSentinel(v ssa.Value) bool {
+	ld, ok := v.(*ssa.UnOp)
+	if !ok || ld.Op != token.MUL {
+		return false
+	}
+	g, ok := ld.X.(*ssa.Global)
+	return ok && ir.IsErrorType(g.Type().Underlying().(*types.Pointer).Elem())
+}
+
+func runCACHEAFTER(c *Ctx) {
+	P := c.P
+	for _, fn := range P.Funcs {
+		if fn.Pkg.Pkg.Path() != ir.MastPath {
+			continue
+		}
+		for _, ci := range CallsOf(fn) {
+			if c.Facts.External(ci) != "NodeCache.Add" {
+				continue
+			}
+			pos := P.InstrPos(ci)
+			ok := false
+			via := ""
+			for _, cj := range CallsOf(fn) {
+				e := c.Facts.External(cj)
+				if e != "Persist.Load" && e != "Persist.Store" {
+					continue
+				}
+				call, isCall := cj.(*ssa.Call)
+				if !isCall {
+					continue
+				}
+				var errV ssa.Value = call
+				if call.Call.Signature().Results().Len() > 1 && call.Referrers() != nil {
+					errV = nil
+					for _, r := range *call.Referrers() {
+						if ex, isEx := r.(*ssa.Extract); isEx && ex.Index == ir.ErrorResultIndex(call.Call.Signature()) {
+							errV = ex
+						}
+					}
+				}
+				if errV == nil {
+					continue
+				}
+				if (ci.Block() == cj.Block() || cj.Block().Dominates(ci.Block())) && nilFactOn(ci.Block(), errV, true) {
+					ok, via = true, e
+				}
+			}
+			if ok {
+				c.OK(pos, "NodeCache.Add in "+ir.FuncName(fn), "on the nil-error edge of "+via, false)
+			} else {
+				c.Violation(fn, pos, "NodeCache.Add not conditioned on store success",
+					"a node is put into the cache although the store is not known to hold it: the cache's Contains short-circuits later writes of that name, so a MakeRoot can succeed with nodes missing from the store")
+			}
+		}
+	}
+}
+
+// goBody resolves the function a go statement starts: a static callee, or a
+// closure held in a local variable (possibly captured by the spawning closure).
+func goBody(g *ssa.Go) *ssa.Function {
+	if f := g.Call.StaticCallee(); f != nil {
+		return f
+	}
+	switch x := ir.Origin(g.Call.Value).(type) {
+	case *ssa.MakeClosure:
+		f, _ := x.Fn.(*ssa.Function)
+		return f
+	case *ssa.Function:
+		return x
+	}
+	return nil
+}
+
+// sprintfThroughHelpers finds the fmt.Sprintf call that produces v, looking
+// through static in-repo helper functions with a single return (depth ≤ 2);
+// env maps each helper parameter to the argument it was called with.
+func sprintfThroughHelpers(v ssa.Value, depth int) (*ssa.Call, map[*ssa.Parameter]ssa.Value) {
+	env := map[*ssa.Parameter]ssa.Value{}
+	for d := depth; d < 3; d++ {
+		call, ok := v.(*ssa.Call)
+		if !ok {
+			return nil, nil
+		}
+		sc := call.Call.StaticCallee()
+		if sc == nil {
+			return nil, nil
+		}
+		if sc.String() == "fmt.Sprintf" {
+			return call, env
+		}
+		if sc.Blocks == nil {
+			return nil, nil
+		}
+		rets := ir.Returns(sc)
+		if len(rets) != 1 || len(rets[0].Results) != 1 {
+			return nil, nil
+		}
+		for i, p := range sc.Params {
+			if i < len(call.Call.Args) {
+				a := call.Call.Args[i]
+				// compose with the environment of an outer helper
+				if pp, isP := ir.Strip(ir.ResolveCell(a)).(*ssa.Parameter); isP && env[pp] != nil {
+					a = env[pp]
+				}
+				env[p] = a
+			}
+		}
+		v = ir.Origin(rets[0].Results[0])
+	}
+	return nil, nil
 }
